@@ -1,0 +1,25 @@
+// Copyright 2026 The Mellium Contributors.
+// Use of this source code is governed by the BSD 2-clause
+// license that can be found in the LICENSE file.
+
+//go:build verif
+
+package xmpp
+
+import (
+	"sync"
+)
+
+// VerifOutputLocked reports whether the output lock of the session is held at
+// this moment (by anyone). It only exists in builds with the "verif" tag.
+func VerifOutputLocked(s *Session) bool {
+	m, ok := s.out.Locker.(*sync.Mutex)
+	if !ok {
+		return false
+	}
+	if m.TryLock() {
+		m.Unlock()
+		return false
+	}
+	return true
+}
